@@ -31,3 +31,17 @@ def c03(run):
                              "simplicity; NaN/Inf ordinates. Non-trivial = non-empty; distinct by hash of the case"}
     family_enumerated(run, "valid", "Gen_Valid", "Trace_Valid", gen_cfg=tier_n(run, "Gen_Valid.cfg", "Gen_Valid_full.cfg"))
     family_random(run, "valid", "Trace_Valid", tier_n(run, 12000, 600000))
+
+FAMILY_MODULE["overlay"] = "Trace_Overlay"
+
+
+@prop("C01")
+def c01(run):
+    run.assumptions += [
+        "exact decision on lattices N<=6 and their exact-similarity / general-position images (DESIGN.md 4.3-4.4)",
+        "result vertex positions are checked to 2^-15 of the lattice unit",
+    ]
+    run.extra_cov = {"rule": "random valid lattice geometries of all 7 types incl. nested collections with overlapping and empty "
+                             "members (N in 3..6), every ordered type pair, 4 binary ops + UnaryUnion + UnionMany, similarity and "
+                             "general-position images; non-trivial = both operands and the result non-empty; distinct by case hash"}
+    family_random(run, "overlay", "Trace_Overlay", tier_n(run, 6000, 300000))
